@@ -215,18 +215,34 @@ def check_output(inp, opts, out):
     # ---- C04: travel duration of every leg recomputed from the duration matrix (plain or time dependent: frames with a
     # scaling factor or an own matrix, blended across frame boundaries) at the reported departure; arrival = departure + travel
     dm = inp.get("duration_matrix")
-    if dm is not None and (isinstance(dm, dict) or (isinstance(dm, list) and dm and isinstance(dm[0], list))):
+    per_vehicle = isinstance(dm, list) and bool(dm) and isinstance(dm[0], dict)
+    if dm is not None and (isinstance(dm, dict) or per_vehicle or (isinstance(dm, list) and dm and isinstance(dm[0], list))):
         from fractions import Fraction as Fr
         nst, nal = len(inp["stops"]), len(inp.get("alternate_stops", []))
         sidx = {x["id"]: k for k, x in enumerate(inp["stops"])}
         aidx = {x["id"]: nst + k for k, x in enumerate(inp.get("alternate_stops", []))}
         vidx = {v["id"]: k for k, v in enumerate(inp["vehicles"])}
-        default = dm["default_matrix"] if isinstance(dm, dict) else dm
-        frames = []
-        if isinstance(dm, dict):
-            for fr in dm.get("matrix_time_frames") or []:
-                frames.append((ts(fr["start_time"]), ts(fr["end_time"]), fr))
-            frames.sort(key=lambda x: x[0])
+        # a list of time-dependent matrices: one per set of vehicles (vehicle_ids)
+        by_vehicle = {}
+        if per_vehicle:
+            for one in dm:
+                for v_ in one.get("vehicle_ids") or []:
+                    by_vehicle[v_] = one
+        default, frames = None, []
+
+        def select(vid_):
+            nonlocal default, frames
+            one = by_vehicle.get(vid_) if per_vehicle else dm
+            if one is None:
+                default, frames = None, []
+                return False
+            default = one["default_matrix"] if isinstance(one, dict) else one
+            frames = []
+            if isinstance(one, dict):
+                for fr in one.get("matrix_time_frames") or []:
+                    frames.append((ts(fr["start_time"]), ts(fr["end_time"]), fr))
+                frames.sort(key=lambda x: x[0])
+            return True
 
         def leg(fr, i, j):
             if fr is None:
@@ -284,6 +300,8 @@ def check_output(inp, opts, out):
             return None
         for vid, (ids, vo) in routes.items():
             rt = vo.get("route", [])
+            if not select(vid):
+                continue
             for a, b in zip(rt, rt[1:]):
                 i, j = index_of(a["stop"]["id"], vid), index_of(b["stop"]["id"], vid)
                 if i is None or j is None:
